@@ -232,8 +232,9 @@ def h_connector(addrs: List[Tuple[bool, bool]], he: int, ct: int, steps: List[Tu
             else:
                 fl = rig.inflight()
                 if not fl:
-                    continue
-                att = fl[a % len(fl)]
+                    return             # nothing to complete: covered by the shorter schedule
+                # `a` is only inspected when two attempts are in flight (keeps the path count down)
+                att = fl[0] if (len(fl) == 1 or a == 0) else fl[1]
                 if k == 0:
                     rig.succeed(att)
                 else:
@@ -245,10 +246,13 @@ def h_connector(addrs: List[Tuple[bool, bool]], he: int, ct: int, steps: List[Tu
         env.run_ready()
         rig.check()
         # ---- drain: everything still running fails, all timers fire -> the connect must be complete
-        for _ in range(len(addrs) + 2):
-            for att in rig.inflight():
+        for _ in range(len(addrs) + 1):
+            fl = rig.inflight()
+            if not fl and rig.fut.done():
+                break
+            for att in fl:
                 rig.fail(att)
             env.advance(3)
-            rig.check()
+        rig.check()
         assert rig.fut.done(), "connect never completed although every attempt finished"
         assert not rig.inflight()
